@@ -58,7 +58,7 @@ fn par_compute_mask_inner(constraints: Vec<LlgConstraintStep>) {
                 match constraint.compute_mask() {
                     Ok(r) => {
                         if let Some(m) = r.sample_mask.as_ref() {
-                            num_copied = std::cmp::min(m.len(), mask_elts);
+                            num_copied = std::cmp::min(m.as_slice().len(), mask_elts);
                             // SAFETY: mask_dest is non-null (checked above), and
                             // mask_byte_len guarantees sufficient space.
                             unsafe {
